@@ -18,20 +18,25 @@ import common
 
 ID = "C14"
 MANIFEST = dict(
-    technique="Coq proof (error containment of a Gallina transcription of evaluate()'s Try/assign/op-assign skeleton, unbounded) + "
-              "exhaustive builtin x argument-pool sweep under catch_unwind + fault-injection correspondence model/implementation/Python oracle",
+    technique="Coq proof (error containment of a Gallina transcription of evaluate()'s Try/While/Assign/OpAssign skeleton, unbounded, for "
+              "every meaning of the builtins) + exhaustive builtin x argument-pool sweep under catch_unwind + fault-injection "
+              "correspondence model/implementation with property-level oracle",
     text="Machine-checked theorems (Coq 8.16, no axioms) about Lang/Contain.v, a transcription of the error-propagation skeleton of "
-         "src/eval.rs (Sequence, Assign, IndexAssign, OpAssign with its read / evaluate-RHS / drop_lhs / call / assign-back order, Try which "
-         "intercepts only NErr::Throw, Throw, While with Break/Continue, Return): whatever raises Throw inside try reaches the catch clause "
-         "while Break/Continue/Return pass through; after a statement raises, every variable it does not name has its previous value (the "
-         "named slot may be null after a failed op-assign); evaluation continues with the next statement in that store; the model never "
-         "produces Panic. Panic-freedom theorems of the other modelled cores are re-exported. That applying a builtin yields a value or an "
-         "error and never a panic/abort/hang is NOT a theorem: it is searched by the sweep (all global functions x 0..2 arguments exhaustive "
-         "over a 44-value pool + sampled triples in the quick tier, all triples in the thorough tier) and by fault-injected programs.",
+         "src/eval.rs (Sequence, If, While with Break/Continue levels, Try which intercepts only NErr::Throw, Throw, Return, Assign and "
+         "OpAssign with its read / evaluate-RHS / drop_lhs / call / assign-back order): whatever raises Throw inside try reaches the catch "
+         "clause while Break/Continue/Return pass through; a Throw leaving a try comes from its catch clause; after a statement raises, every "
+         "variable it does not name has its previous value (a failed assignment changes nothing, a failed op-assignment leaves at most the named "
+         "slot null); evaluation continues with the next statement in that store; if no builtin panics no program panics. Panic-freedom "
+         "theorems of other modelled cores are re-exported, and the known huge-count class is stated on a model of `x .* n` with its refutation. "
+         "That applying a builtin yields a value or an error and never a panic/abort/hang is NOT a theorem: it is searched by the sweep (all "
+         "global functions of the live env x 0..2 arguments exhaustive over a 51-value pool, 8 huge values and infinite streams, + sampled triples "
+         "in the quick tier, all triples in the thorough tier) and by ~2 900 fault-injected programs / source texts per run.",
     note="Trusted: Coq kernel; hand-written model Lang/Contain.v (tied to /repo by the fault-injection correspondence, i.e. differential testing); "
-         "extraction + OCaml runner; Rust harness (catch_unwind, panic hook, watchdog thread, RLIMIT_AS); Python driver and oracle. "
-         "Panic-freedom of the ~300 builtin bodies is a sweep result over the pool, not a proof. Builtins touching files, processes, clock, sleep, "
-         "stdin, randomness and eval are excluded by name. The huge-count class (counts/widths/shifts/exponents >= 2^31) is a recorded known finding.",
+         "extraction + OCaml runner; Rust harness (fork server, catch_unwind, panic hook, CPU watchdog, allocation cap, RLIMIT_AS); Python driver. "
+         "Panic-freedom of the ~300 builtin bodies is a sweep result over the pool, not a proof (it is the hypothesis of C14_program_no_panic). "
+         "Builtins touching files, processes, clock, sleep, stdin, randomness and eval are excluded by name. The huge-count class "
+         "(counts/widths/shifts/exponents >= 2^31 given to .* *. $* *$ ^^ ** x ^ <<) is a recorded known finding; stack exhaustion by deep recursion "
+         "is outside the check (fuel is kept below the depth that overflows).",
     design="6-C14")
 
 # ----------------------------------------------------------------------------- the sweep: names
@@ -57,12 +62,14 @@ POOL_B = [
     ("null", "null"),
     ("0", "int"), ("1", "int"), ("(0-1)", "int"), ("2", "int"), ("7", "int"), ("(0-3)", "int"),
     ("256", "int"), ("65536", "int"), ("(0-65536)", "int"),
+    ("(18446744073709551616-18446744073709551616)", "int"),      # 0 held in big-integer representation
+    ("(18446744073709551616-18446744073709551611)", "int"),      # 5 held in big-integer representation
     ("0.0", "float"), ("1.5", "float"), ("(0.0-2.5)", "float"), ("(0.0/0.0)", "nan"), ("(1.0/0.0)", "inf"), ("(0.0-1.0/0.0)", "inf"),
-    ("(1/2)", "rational"), ("(0-7/3)", "rational"),
-    ("(1+2i)", "complex"),
-    ('""', "string"), ('"ab"', "string"), ('"é\U0001d11e x"', "string"), ('"12"', "string"),
+    ("(1/2)", "rational"), ("(0-7/3)", "rational"), ("((1/2)-(1/2))", "rational"),       # the last one: a rational zero
+    ("(1+2i)", "complex"), ("(0.0*1i)", "complex"),
+    ('""', "string"), ('"a"', "string"), ('"ab"', "string"), ('"é\U0001d11e x"', "string"), ('"12"', "string"),
     ("B[]", "bytes"), ("B[255,254,97]", "bytes"),
-    ("[]", "list"), ("[1,2,3]", "list"), ('[[1,[2,3]],[],"x"]', "list"), ('[3,"a",null,1.5]', "list"),
+    ("[]", "list"), ("[5]", "list"), ("[1,2,3]", "list"), ('[[1,[2,3]],[],"x"]', "list"), ('[3,"a",null,1.5]', "list"),
     ("V()", "vector"), ("V(1,2,3)", "vector"),
     ("{}", "dict"), ('{1:2,"a":[3]}', "dict"), ("{:0,1:2}", "dict"), ("{1,2}", "dict"),
     ("(1 to 3)", "stream"), ("(0 til 0)", "stream"), ("stream([1,2,3])", "stream"), ("((1 to 3) lazy_map (+1))", "stream"),
@@ -107,7 +114,11 @@ def list_names():
     r = common.run_harness(common.harness_bin("c14"), [{"id": 0, "mode": "list"}], timeout=60, workers=1)[0]
     if r.get("status") != "ok":
         raise RuntimeError("c14 list failed: " + json.dumps(r)[:300])
+    LIVE.update(obj_size=r.get("obj_size"), alloc_cap=r.get("alloc_cap"))
     return r["names"]
+
+
+LIVE = {}
 
 
 def render_call(fn, t):
@@ -138,8 +149,8 @@ class Sweep:
         self.on_detail = None
         self.skipped = 0
 
-    def case(self, fn, tuples=None, grid=None, limit_ms=LIMIT_MS, detail=False, budget=None):
-        c = {"mode": "sweep", "fn": fn, "pool": SRC, "setup": SETUP, "fuel": FUEL, "limit_ms": limit_ms, "detail": detail}
+    def case(self, fn, tuples=None, grid=None, limit_ms=LIMIT_MS, detail=False, budget=None, pool=None):
+        c = {"mode": "sweep", "fn": fn, "pool": pool or SRC, "setup": SETUP, "fuel": FUEL, "limit_ms": limit_ms, "detail": detail}
         if budget is not None:
             c["budget"] = budget
         if tuples is not None:
@@ -313,14 +324,15 @@ def build_cases(ctx, sw, fns):
         # bounded: 0 and 1 argument: everything; 2 arguments: exhaustive grid; 3 arguments: sampled (quick) / exhaustive
         small = [[]] + [[i] for i in IDX_BI]
         cases.append(sw.case(fn, grid=dict(vals=IDX_BI, arity=2, start=0, end=nb * nb)))
+        # one detailed case: 0-1 arguments, the probe of which functions look at three arguments (quick), and the
+        # probe of which calls consume the fuel-burning infinite stream
+        probe3 = [[ctx.rng.choice(IDX_B) for _ in range(3)] for _ in range(60)] if quick else []
+        cases.append(sw.case(fn, tuples=small + probe3 + inf_probe_tuples(ctx), detail=True))
         if quick:
-            tri = [[ctx.rng.choice(IDX_BI) for _ in range(3)] for _ in range(300)]
-            cases.append(sw.case(fn, tuples=small + tri))
             huge = [[i] for i in IDX_H] + huge_tuples(2, ctx.rng, 120) + huge_tuples(3, ctx.rng, 40)
             # quick tier: at most 10 calls per function may hang / bomb; the rest of its huge tuples are skipped (counted)
             cases.append(sw.case(fn, tuples=huge, limit_ms=hlimit, budget=10))
         else:
-            cases.append(sw.case(fn, tuples=small))
             total = nb ** 3
             step = 12000
             for a in range(0, total, step):
@@ -335,14 +347,16 @@ def build_cases(ctx, sw, fns):
 INF_PARTNERS_QUICK = ["null", "0", "2", "(0-3)", "65536", "1.5", '"ab"', "[1,2,3]", "{}", "(1 to 3)", "(\\x -> x)", "(+)"]
 
 
-def inf_probe_cases(ctx, sw, fns):
-    """1..2 arguments with the fuel-burning infinite stream, per-call detail"""
+def triple_cases(ctx, sw, accepting):
+    """quick tier: many more sampled triples for the functions whose answers to the probe were not all the same
+    refusal (i.e. that look at three arguments)"""
+    return [sw.case(fn, tuples=[[ctx.rng.choice(IDX_BI) for _ in range(3)] for _ in range(2500)]) for fn in accepting]
+
+
+def inf_probe_tuples(ctx):
+    """1..2 arguments with the fuel-burning infinite stream (run with per-call detail)"""
     partners = [SRC.index(x) for x in INF_PARTNERS_QUICK] if ctx.quick() else IDX_B
-    cases = []
-    for fn in fns:
-        ts = [[IDX_INF], [IDX_INF, IDX_INF]] + [[IDX_INF, i] for i in partners] + [[i, IDX_INF] for i in partners]
-        cases.append(sw.case(fn, tuples=ts, detail=True))
-    return cases
+    return [[IDX_INF], [IDX_INF, IDX_INF]] + [[IDX_INF, i] for i in partners] + [[i, IDX_INF] for i in partners]
 
 
 def native_inf_cases(ctx, sw, notconsumed):
@@ -360,21 +374,64 @@ def native_inf_cases(ctx, sw, notconsumed):
     return cases
 
 
+# the builtins that allocate or iterate proportionally to a count / width / shift / exponent argument
+# (members of the known finding; a failure of any OTHER builtin on a huge argument is a violation):
+#   .* *.  list replication          $* *$  string replication        ^^  cartesian power (index vector of that length)
+#   ** x   `seq ** n` concatenates n copies      ^  bigint / rational power       <<  bigint shift
+HUGE_COUNT_FNS = {".*", "*.", "$*", "*$", "^^", "**", "\u00d7", "^", "<<"}
+
+
 def classify(f):
     """-> 'violation' | 'known:huge-count-argument' | 'tolerated:nonterminating-input'"""
     t, st = f["t"], f["status"]
     has_inf = any(i in INFS for i in t)
     has_huge = any(i in HUGE for i in t)
+    member = has_huge and f["fn"] in HUGE_COUNT_FNS
     if st == "panic":
-        if has_huge and "capacity overflow" in f["msg"]:
+        if member and "capacity overflow" in f["msg"]:
             return "known:huge-count-argument"
         return "violation"
     # hang / allocbomb / abort
-    if has_huge:
+    if member:
         return "known:huge-count-argument"
     if has_inf:
         return "tolerated:nonterminating-input"
     return "violation"
+
+
+ALLOC_COUNTS = [0, 1, -1, 3, 65536, -65536, 2 ** 20, 2 ** 26, 2 ** 27, 2 ** 31, 2 ** 32, 2 ** 63 - 1, 2 ** 63, 2 ** 64 - 1, 2 ** 64, -2 ** 64, 10 ** 30]
+
+
+def run_alloc_model(ctx, runner):
+    """Lang/HugeCount.v against `null .* n` and `n *. null`: value / error / capacity-overflow panic / allocation refused"""
+    sz, cap = LIVE.get("obj_size"), LIVE.get("alloc_cap")
+    out = {"obj_size": sz, "alloc_cap": cap, "compared": 0}
+    if not runner or not sz or not cap:
+        return out, []
+    pool = ["null"] + [str(n) if n >= 0 else f"(0-{-n})" for n in ALLOC_COUNTS]
+    sw = Sweep(ctx)
+    got = {}
+    sw.on_detail = lambda c, results: got.setdefault(c["fn"], {}).update({tuple(r["t"]): r["status"] for r in results})
+    cases = []
+    for k in range(1, len(pool)):
+        cases.append(sw.case(".*", tuples=[[0, k]], detail=True, pool=pool, limit_ms=20000))
+        cases.append(sw.case("*.", tuples=[[k, 0]], detail=True, pool=pool, limit_ms=20000))
+    sw.run(cases, workers=4)
+    for f in sw.fail:
+        got.setdefault(f["fn"], {})[tuple(f["t"])] = f["status"] + (":capov" if "capacity overflow" in f["msg"] else "")
+    model = common.run_model(runner, [f"alloc {sz} {cap} {n}" for n in ALLOC_COUNTS])
+    bad = []
+    for k, (n, m) in enumerate(zip(ALLOC_COUNTS, model), start=1):
+        want = {"ok": "ok", "err": "err", "capov": "panic:capov", "abort": "allocbomb"}.get(m.split(" ")[0], "?" + m)
+        for fn, t in ((".*", (0, k)), ("*.", (k, 0))):
+            obs = got.get(fn, {}).get(t, "missing")
+            obs = "err" if obs.startswith("err:") else obs
+            out["compared"] += 1
+            if obs != want:
+                bad.append(("correspondence", dict(shape="alloc-model", what="Lang/HugeCount.v and the implementation disagree on the allocation of a replication",
+                                                   call=f"{fn} with count {n}", coq_model=m, implementation=obs, obj_size=sz, alloc_cap=cap)))
+    out["counts"] = [str(n) for n in ALLOC_COUNTS]
+    return out, bad
 
 
 def run_sweep(ctx):
@@ -384,19 +441,26 @@ def run_sweep(ctx):
     fns = [n for n in funcs if n not in excl]
     sw = Sweep(ctx)
     t0 = time.time()
-    sw.run(build_cases(ctx, sw, fns))
-    t_main = time.time() - t0
-    main_calls = sw.calls
-    # infinite streams
+    seen3 = {}
     notconsumed = {}
 
     def on_detail(c, results):
         for r in results:
-            if r["status"] == "ok" or (r["status"].startswith("err:") and r["status"] != "err:fuel"):
-                notconsumed.setdefault(c["fn"], set()).add(tuple(r["t"]))
+            t = r["t"]
+            if len(t) == 3:
+                seen3.setdefault(c["fn"], set()).add((r["status"], r.get("info", "")[:30]) if r["status"] != "ok" else ("ok", ""))
+            elif IDX_INF in t:
+                if r["status"] == "ok" or (r["status"].startswith("err:") and r["status"] != "err:fuel"):
+                    notconsumed.setdefault(c["fn"], set()).add(tuple(t))
     sw.on_detail = on_detail
-    sw.run(inf_probe_cases(ctx, sw, fns))
+    sw.run(build_cases(ctx, sw, fns))
     sw.on_detail = None
+    accepting = []
+    if ctx.quick():
+        accepting = sorted(fn for fn, st in seen3.items() if len(st) > 1 or ("ok", "") in st)
+        sw.run(triple_cases(ctx, sw, accepting))
+    t_main = time.time() - t0
+    main_calls = sw.calls
     ncases = native_inf_cases(ctx, sw, notconsumed)
     sw.run(ncases)
     t_all = time.time() - t0
@@ -416,7 +480,7 @@ def run_sweep(ctx):
     viol = [f for f in sw.fail if f["class"] == "violation"]
     known = [f for f in sw.fail if f["class"].startswith("known:")]
     tol = [f for f in sw.fail if f["class"].startswith("tolerated:")]
-    return dict(sw=sw, fns=fns, excluded=excl, names=names, viol=viol, known=known, tolerated=tol,
+    return dict(sw=sw, fns=fns, excluded=excl, names=names, viol=viol, known=known, tolerated=tol, accepting3=accepting,
                 t_main=t_main, t_all=t_all, main_calls=main_calls, native_cases=sum(Sweep.size(c) for c in ncases),
                 slow_not_hang=[f for f in sw.fail if f["class"] == "slow-not-hang"])
 
@@ -734,6 +798,45 @@ RAW_FAULTS = [
     ("x0 = x0(1)", {0}), ("x0 = null(1)", {0}), ("x0 = (1 < 2 < null)", {0}), ("x0 = 1 max null", {0}), ("x2 append= 1; x2[9] = 0", {2}),
     ("struct C14P (c14f); x0 = C14P(1, 2)", {0}), ("struct C14Q (c14g); x0 = c14g(5)", {0}), ("x0 = literally", {0}),
     ("x0 = \"\\u{110000000}\"", {0}), ("x0 = 1 +", {0}),
+    # destructuring of every shape against every length
+    ("x0, x1, x11 = [1, 2]", {0, 1, 11}), ("x0, x1, ...x11 = [1]", {0, 1, 11}), ("...x0, x1, x11 = [1]", {0, 1, 11}), ("x0, ...x1, x11 = []", {0, 1, 11}),
+    ("x0, (x1, ...x11) = [1, []]", {0, 1, 11}), ("x0, (x1, x11) = [1, [2, 3, 4]]", {0, 1, 11}), ("(x0, x1), x11 = [[1], 2]", {0, 1, 11}), ("x0, x1 = \"a\"", {0, 1}),
+    ("x0, x1 = \"h\u00e9\u00e9\"", {0, 1}), ("x0, x1 = {1: 2}", {0, 1}), ("x0, x1 = 1 to 3", {0, 1}), ("x0, x1 = V(1)", {0, 1}), ("x0, x1 = B[1]", {0, 1}), ("x0, 5 = [1, 6]", {0}),
+    ("x0, x0 = [1]", {0}), ("x0 := 1", {0}), ("x0: str = 5", {0}), ("x2[0], x2[9] = [7, 8]", {2}), ("x2[0], x1 = [7]", {2, 1}), ("x0, x1 += 1", {0, 1}), ("x0, x1 = x1, x0, x0", {0, 1}),
+    ("(x0 and x1) += null", {0, 1}), ("(x0 and x4) //= 0", {0, 4}), ("x0 or x1 = 5", {0, 1}), ("every x2 += null", {2}), ("every x3[0] //= 0", {3}), ("every x3[:][0] = 1; every x3[:][5] = 1", {3}),
+    ("x3[0][1:9] = 1", {3}), ("x3[0:1][0] = 1", {3}), ("x3[9][0] += 1", {3}), ("x3[0][0][0] += 1", {3}), ("x3[null] = 1", {3}), ("x3[0][\"a\"] = 1", {3}), ("x3[1.5] = 1", {3}),
+    # more statement kinds around a failure
+    ("for (i <- [1,2,3]) (x0 += i; x1 //= (2 - i))", {0, 1}), ("for (i <- 1 to 3; j <- [i, null]) x0 += j", {0}), ("for (i <- [1,2]) for (j <- [1,2]) (x0 = j; if (i + j == 4) throw [i, j])", {0}),
+    ("x0 = for (i <- [1,2,3]) yield 1 // (i - 3)", {0}), ("x0 = for (i <- [1,2,3]) yield i into 5", {0}), ("x0 = for (i <- [1,2,3]) yield i: 1 // (i - 2)", {0}),
+    ("x0 = switch (x2) case [a, b] -> 1 case [a, b, c, d] -> 2", {0}), ("x0 = switch (x2) case [a, b, c] -> a // 0", {0}), ("while (x0 > 0) (x0 -= 1; if (x0 == 2) x1 //= 0)", {0, 1}),
+    ("x0 = (\\a -> (x1 = 9; a // 0))(1)", {0, 1}), ("f := \\a -> (if (a == 0) throw \"deep\"; f(a - 1)); x0 = f(20)", {0}), ("x0 = [1,2,3] map (\\v -> (x1 = v; if (v == 2) throw v; v))", {0, 1}),
+    ("x0 = try (throw 1) catch 2 -> 5", {0}), ("try (throw 1) catch e -> throw [e, 2]", set()), ("x0 = try (throw [1,2]) catch [a] -> a", {0}), ("x0 = try (1 // 0) catch e -> e // 0", {0}),
+    ("x2 .= reverse; x2 .= nosuch", {2}), ("x0 |>= nosuch", {0}), ("x2 sort= 5", {2}), ("x2 map= null", {2}), ("x2 !!= 9", {2}), ("x4 append= 1", {4}), ("x2 ++= 5", {2}), ("x0 max= null", {0}),
+    ("x2 |.= 9", {2}), ("x2 |..= [9, 1]", {2}), ("x3 |..= [0, 1, 2]", {3}), ("x2 zip= 5", {2}), ("x2 join= 5", {2}), ("x2 window= 0", {2}), ("x0 ^= (0-1)", {0}), ("x0 <<= (0-1)", {0}),
+    ("x0 %= 0", {0}), ("x0 %%= 0", {0}), ("x0 /= 0", {0}), ("x0 gcd= null", {0}), ("x0 til= null", {0}), ("x0 by= 0", {0}), ("x0 = 1 to null", {0}),
+]
+
+
+# source texts that must end in a value, an error or a syntax error - never a crash (lexer, parser, literals, format strings)
+WEIRD_SOURCES = [
+    "", " ", "#", "#(", "#( #( )", "(", ")", "((((", "[", "]", "{", "}", "{:", "{:}", "\\", "\\ ->", "\\x", "\\x ->", "\\... -> 1", "\\...x, ...y -> 1",
+    '"', "'", '"\\', '"\\x', '"\\x4', '"\\xzz"', '"\\u"', '"\\u{"', '"\\u{}"', '"\\u{110000}"', '"\\u{d800}"', '"\\u{ffffffffffff}"', '"\\u(41)"', '"\\u[41]"', '"\\u<41>"',
+    '"\\q"', "R\"\\\"", 'B"\\xff\\u{100}"', 'B"é"', "F\"{\"", "F\"}\"", "F\"{}\"", "F\"{{\"", "F\"{1 +}\"", "F\"{1:}\"", "F\"{1:>}\"", "F\"{1:>99999999999999999999}\"",
+    "F\"{1:.}\"", "F\"{1:.99999999999999999999}\"", "F\"{1.5:.400}\"", "F\"{1:x}\"", "F\"{1.5:x}\"", "F\"{null:b}\"", "F\"{1 #x #b #o}\"", "F\"{F\\\"{1}\\\"}\"",
+    "0x", "0b", "0o", "0b2", "0o8", "0xg", "1r1", "1r0", "0r0", "37rz", "36rzz", "64r", "64r+/", "2r", "1e", "1e+", "1e999", "1e-999", "1.", ".5", "1..2", "1.2.3", "1__2", "1_", "0_0",
+    "1q", "1.5q", "1i", "1.5i", "1j", "1f", "1ee1", "99999999999999999999999999999999999999999999f", "1" + "0" * 400, "0." + "0" * 400 + "1", "1e" + "9" * 30,
+    "1 +", "+ 1", "1 + + 1", "1 2", "a b c", "x :=", ":= 1", "x = ", "x, = 1", ", x = 1", "x, y :=", "x ... = 1", "...x = [1]", "x, ...y, ...z = [1,2,3]",
+    "if", "if (1)", "if (1) 2 else", "else 1", "for", "for (", "for (x <- ) 1", "for (x <- [1]) ", "for (x <- [1]; y <-) 1", "for (x <- [1]) yield", "for (x := ) 1",
+    "while", "while (1)", "switch", "switch (1)", "switch (1) case", "switch (1) case 1", "switch (1) case 1 ->", "try", "try 1", "try 1 catch", "try 1 catch e", "try 1 catch e ->",
+    "throw", "break 1 2", "continue 1", "return return", "struct", "struct A", "struct A (", "struct A (x, x); A(1, 2)", "struct A (); A()", "import", "import 5", "freeze", "freeze 1 +", "literally",
+    "literally 1 = 1", "1 = 1", "[1] = [2]", "null = 1", "\"a\" = \"b\"", "x[", "x[]", "x[:]", "[1,2,3][::]", "[1,2,3][1:2:3]", "[1,2,3][:", "_", "_ + _", "(_)(1)", "(_ + )(1)", "_[_]",
+    "1 !", "! 1", "1 ! 2", "f!", "1 . ", ". 1", "1 .. ", "x.y", "1.y", "(1).(2)", "1 |> 2", "1 then", "then 1", "`", "1 `f` 2", "1 `` 2", "a::b", "a::", "::a", "+::precedence", "(+)::x", "1::precedence",
+    "x := 1; x := 2", "x : int = \"s\"", "x : int := 1; x = \"s\"", "x : nosuchtype := 1", "x : 5 := 1", "x: list := 1", "every", "every x", "every x = ", "swap", "swap x", "swap x,", "swap 1, 2",
+    "pop", "pop 1", "pop []", "remove", "remove 1", "remove x", "consume", "consume 1", "consume x[",
+    "{1:2}[", "{1:}", "{:1, :2}", "{1:2, 1:3}", "{[1]:2}", "{{}:1}", "{(\\x -> x): 1}", "{1.0: 1, 1: 2}", "{(0.0/0.0): 1}[(0.0/0.0)]",
+    "(\\x -> x x)(\\x -> x x)", "f := \\x -> f(x); f(1)", "x := [x]", "(\\ -> break)()", "(\\ -> continue)()", "for (i <- [1]) (\\ -> break)()", "while (1) (\\ -> return 5)()",
+    "1 < 2 < ", "1 < 2 > 3 == 4", "1 == 1 == 1 != 2", "1 max 2 min 3 + 4 * 5 ^ 6 - 7", "1 + 2 * 3 - 4 / 5 // 6 % 7 %% 8 ^ 0", "[1,2,3] .+ 4 +. 5", "1 and 2 or 3 coalesce 4", "not not not 1",
+    "\u00e9 := 1; \u00e9", "\u03bb := 1", "x\u0301 := 1", "\u200b", "1\u00a02", "\ufeff1", "\x00", "1\x002", "\"\x00\"", "'\\0'", "\t\r\n1\r\n",
 ]
 
 
@@ -874,6 +977,18 @@ def run_inject(ctx, runner):
         if untouched:
             rec["what"] = f"variables not named by the failing statement changed: {['x%d' % k for k in untouched]}"
             bad.append(("property", rec))
+    # weird source texts: a value, an error, a syntax error - never a crash
+    wres = common.run_prog(list(WEIRD_SOURCES), timeout=20.0, fuel=2_000)   # small fuel: unbounded recursion must end in the fuel error, not in the native stack
+    stats["weird_sources"] = len(WEIRD_SOURCES)
+    stats["weird_outcomes"] = {}
+    for src, r in zip(WEIRD_SOURCES, wres):
+        st = r.get("status")
+        if st == "err" and r.get("class") == "fuel":
+            st = "fuel"
+        stats["weird_outcomes"][st] = stats["weird_outcomes"].get(st, 0) + 1
+        if st not in ("ok", "err", "parse", "sig", "empty", "fuel"):
+            bad.append(("property", dict(shape="source", program=src, impl_status=st, impl_msg=r.get("msg"),
+                                         what="the implementation panicked / hung / aborted on a source text")))
     samples = [dict(program=s_stmt(t), model=mres[i], shape=sh) for i, (sh, t) in list(enumerate(progs))[:: max(1, len(progs) // 8)]][:8]
     return stats, bad, samples
 
@@ -901,6 +1016,7 @@ def sweep_coverage(ctx, S):
         "sweep_pool": {"bounded": [s for s, _ in POOL_B], "infinite_fuel_burning": INF_FUEL[0],
                        "huge": [s for s, _ in POOL_H], "infinite_native": [s for s, _ in INF_NATIVE]},
         "sweep_native_infinite_calls": S["native_cases"],
+        "sweep_functions_taking_three_arguments_sampled_2500": len(S["accepting3"]),
         "sweep_skipped_after_budget": sw.skipped,
         "sweep_known_class_hits": len(S["known"]),
         "sweep_known_class_by_fn": {k: sum(1 for f in S["known"] if f["fn"] == k) for k in sorted({f["fn"] for f in S["known"]})},
@@ -918,6 +1034,9 @@ def run(ctx):
     stats, bad, samples = run_inject(ctx, runner)
     report_inject(ctx, bad)
     S = run_sweep(ctx)
+    amodel, abad = run_alloc_model(ctx, runner)
+    report_inject(ctx, abad)
+    ctx.coverage["alloc_model"] = amodel
     report_sweep(ctx, S)
     sweep_coverage(ctx, S)
     ctx.coverage["inject"] = stats
